@@ -147,6 +147,8 @@ def run(ctx):
         'D2 for each reference phase: H(T_ref)=H_ref, S(T_ref,P_ref)=S0, one +1 integral of the matching-phase Cn per functor '
         '(=> dH/dT=Cn, dS/dT=Cn/T), only gas S depends on P through -R log(P/P_ref), jumps at Tb/Tm equal Hvap/Hfus (/T for S)',
         'D3 mixture models are sum_i n_i f_i over stored entries; entropy mixing term coefficient is -R; excess only when enabled',
+        'D6 in Chemical._init_data, once an optional argument has been resolved into its field (self._X = X or lookup(...)), later values are computed from the '
+        'field, never from the raw argument (which is None for every chemical taken from the database)',
         'D5 every constant a setter patches into existing functors by attribute name (S0, Hfus, Sfus) is bound, in _init_energies, to the functor parameter of '
         'that name (writer/reader agreement; otherwise the setter silently stops reaching that functor)',
         'D4 typestate: after a public Chemical method changes a model or constant that the H/S functors freeze (the arguments '
@@ -161,6 +163,8 @@ def run(ctx):
     r0 = ctx.rule('D1z', 'builder __call__ pairs phase letter, builder and data tuple', floor=4)
     check_builder_call_zip(ctx, r0)
 
+    r6 = ctx.rule('D6', 'data handed to the functors are derived from the resolved fields, not from optional constructor arguments', floor=3)
+    raw_optionals(ctx, r6)
     r4 = ctx.rule('D4', 'H/S functors are rebuilt after their frozen inputs change', floor=6)
     frozen_follow_inputs(ctx, r4)
 
@@ -817,3 +821,41 @@ def _stmt(n):
     while not isinstance(n, ast.stmt):
         n = n._parent
     return n
+
+
+def raw_optionals(ctx, rule):
+    """_init_data resolves each optional argument against the database:  self._Tm = Tm or lookup(CAS).  From then on the ARGUMENT still
+    holds what the caller passed (None for database chemicals).  A later value computed from the raw argument silently
+    degenerates -- Sfus = None if Hfus is None ... made the entropy of fusion None for every database chemical."""
+    prog = ctx.prog
+    f = prog.method('Chemical', '_init_data', rel=CH)
+    params = set(f.params[1:])
+    body = [n for n in walk_no_nested(f.node) if isinstance(n, ast.Assign)]
+    resolved = {}      # parameter -> the statement that resolves it into a field without re-binding the local
+    for n in body:
+        flds = [t for t in n.targets if isinstance(t, ast.Attribute) and src(t.value) == 'self']
+        names = [t.id for t in n.targets if isinstance(t, ast.Name)]
+        if not flds:
+            continue
+        v = n.value
+        cands = []
+        if isinstance(v, ast.BoolOp) and isinstance(v.op, ast.Or) and isinstance(v.values[0], ast.Name):
+            cands.append(v.values[0].id)
+        if isinstance(v, ast.IfExp) and isinstance(v.test, ast.Compare) and isinstance(v.test.left, ast.Name) \
+                and isinstance(v.test.comparators[0], ast.Constant) and v.test.comparators[0].value is None:
+            cands.append(v.test.left.id)
+        for p_ in cands:
+            if p_ in params and p_ not in names and p_ not in resolved:
+                resolved[p_] = (n, src(flds[0]))
+    if len(resolved) < 2:
+        raise AnalysisError('Chemical._init_data: expected >= 2 optional arguments resolved into fields, found %s' % sorted(resolved))
+    for p_, (st, fld) in sorted(resolved.items()):
+        later = [x for n in body if n.lineno > st.lineno for x in ast.walk(n.value) if isinstance(x, ast.Name) and x.id == p_ and isinstance(x.ctx, ast.Load)]
+        # re-binding of the local after resolution makes later reads fine
+        rebound = [n for n in body if n.lineno > st.lineno and any(isinstance(t, ast.Name) and t.id == p_ for t in n.targets)]
+        later = [x for x in later if not any(r.lineno < x.lineno for r in rebound)]
+        if later:
+            rule.fail('Chemical._init_data', 'raw-optional-' + p_, 'the optional argument %s was resolved into %s, yet a later value is still computed from the raw argument '
+                      '(None unless the caller supplied it): for chemicals taken from the database that value degenerates' % (p_, fld), f, later[0])
+        else:
+            rule.ok('Chemical._init_data', 'after %s is resolved into %s nothing is computed from the raw argument' % (p_, fld), f, st)
